@@ -150,16 +150,28 @@ def run_sortedmix(ctx, cell):
     keyfn = MIXKEYS[cell["key"]]
     key = "C07:sortedmix"
     idx = [ctx.choice("e%d" % i, len(MIXPOOL)) for i in range(n)]
+    if len(set(idx)) != n:
+        return ["duplicate pool entries: skipped"]
     elems = [MIXPOOL[i] for i in idx]
-    # each element is paired with its input position: [elem, pos] so that equal ones stay apart
-    lit = "[" + ", ".join("[%s, %d]" % (e, i) for i, e in enumerate(elems)) + "]"
-    prog = ("def kf = %s; def l = %s; def r = sorted(l, key = fn(p) kf(p[0])); "
-            "[r, [compare(kf(r[i][0]), kf(r[i + 1][0])) for i in range(length(r) - 1)]]" % (keyfn, lit))
+    # raw elements: 1 and 1.0 are EQUAL values with different renderings / types / keys
+    lit = "[" + ", ".join(elems) + "]"
+    prog = ("def kf = %s; def l = %s; def r = sorted(l, key = kf); "
+            "[[string(x) for x in r], [compare(kf(r[i]), kf(r[i + 1])) for i in range(length(r) - 1)]]" % (keyfn, lit))
     out = run_ckl(prog)
     detail = {"elements": elems, "key": keyfn, "got": ctx.plain(out)}
     if out.kind != "ok":
         ctx.fail("%s:%s:%s" % (key, out.kind, out.hostname() or "runtime-error"), detail)
         return out
+    res, cmps = out.value.value
+    rend = [x.value for x in res.value]
+    if not ctx.check(sorted(rend) == sorted(elems), key + ":not-a-permutation", detail):
+        return out
+    poss = [elems.index(x) for x in rend]
+    for i, c in enumerate(cmps.value):
+        ctx.check(c.value <= 0, key + ":not-ordered-by-key", detail)
+        if c.value == 0:
+            ctx.check(poss[i] < poss[i + 1], key + ":not-stable", detail)
+    return out
     res, cmps = out.value.value
     poss = [p.value[1].value for p in res.value]
     ctx.check(sorted(poss) == list(range(n)), key + ":not-a-permutation", detail)
